@@ -273,7 +273,5 @@ pub fn run(rep: &mut Report) {
         rep.case(&s, s.contains('{'));
         exercise(rep, &s, &ctx, "unicode");
     });
-    // the verdict can flip between profiles (debug_assertions, overflow checks): repeat in release (both tiers)
-    crate::subrun::merge(rep, "L4V_BIN_RELEASE", "C11", "release");
     rep.require(rep.counter("encoded") > 10_000, "fewer than 10000 patterns encoded");
 }
